@@ -8,6 +8,11 @@ Tie, re-run from VERIF_REPO's working tree on every invocation:
      the source and must appear in the order of the model's step_order (extracted) -- this is the
      hypothesis-free part of C08_ack_implies_durable: wal.Save before publishEntries before
      maybeTriggerSnapshot before Advance.
+ (L) a restart on a LONG log: n committed commands (n around 1024, 1500, 2600, 5000, a random size;
+     more in thorough, all below the snapshot threshold) handed as ONE Ready to a node's real
+     entriesToApply -> publishEntries -> commitC -> handleClusterCommits (hook VerifReplay); the
+     keyspace -- including a list to which command i appends i -- must be that of executing the log
+     one by one, which the extracted model replays: every committed command exactly once, in order.
  (V) below the snapshot threshold, real node processes: three nodes, concurrent writers, every
      acknowledged write recorded; kill -9 of all nodes at once (and, thorough, of minorities and
      majorities at random instants, restart in every order, several rounds); after restart every
@@ -17,6 +22,7 @@ Tie, re-run from VERIF_REPO's working tree on every invocation:
      which keys exist after a restart, when the node dies.  Both predictions are violations of the
      property, listed as open findings; the check prints KNOWN-FINDING when the real node does
      what the refuted model says and reports a VIOLATION when it does anything else."""
+import collections
 import json
 import os
 import random
@@ -45,6 +51,12 @@ def build():
     ok, log = lib.ensure_runner("clusterrun", "Extract/ExtractCluster.v", ("clusterutil.ml", "clusterrun.ml"), ("clustermodel",))
     if not ok:
         return "clusterrun build failed: " + log[-2500:]
+    ok, log = lib.ensure_modelrun()
+    if not ok:
+        return "modelrun build failed: " + log[-2500:]
+    ok, log = lib.ensure_harness_ft("harness_cluster_ft", srcdir="harness_cluster")
+    if not ok:
+        return "harness_cluster build failed (does the repository still compile with -tags verif?): " + log[-2500:]
     return None
 
 
@@ -73,6 +85,58 @@ def step_order_tie(d):
                     note="C08_ack_implies_durable is proved for the model's order; with publishEntries before wal.Save a reply can "
                          "precede the durable write (kill -9 between the two loses an acknowledged write)")
     return None
+
+
+# ----------------------------------------------------------------------------- (L) long replay
+HB = "harness_cluster_ft"
+
+
+def long_replay_tie(d, n, tag="lr"):
+    """A restart on a LONG log: n committed commands (RPUSH seq i / SET k<i> v<i> / INCR ctr, i = 1..n)
+    handed to a node's real apply path as ONE Ready (hook VerifReplay: entriesToApply -> publishEntries
+    -> commitC -> handleClusterCommits).  The keyspace must be the one of executing the n commands one by
+    one, which the extracted model replays (C08_restart_recovers is over any log length): in particular
+    the list 'seq' must be 1..n -- every committed command delivered exactly once, in order.
+    Returns (failing, err)."""
+    out = d / ("%s_%d.trace" % (tag, n))
+    rc, log = lib.sh("timeout 300 %s replayrun %d %s %s" % (lib.BUILD / HB, n, out, d), cwd=d, timeout=400,
+                     extra_env={"GOMAXPROCS": "1"})
+    rep = d / (out.name + ".replay")
+    if rc != 0 or not rep.exists():
+        return dict(kind="long-replay-took-the-node-down", replay_long_log=n,
+                    detail=re.sub(r"[^\x20-\x7e\n]+", " ", log)[-1200:],
+                    note="a node restarting on a log of %d committed commands died in its apply path" % n), None
+    ver = d / (out.name + ".verdict")
+    rc, log = lib.sh("%s mem %s %s" % (lib.BUILD / "modelrun", out, ver), cwd=d, timeout=600)
+    if rc != 0 or not ver.exists():
+        return None, "modelrun rc=%s %s" % (rc, log[-800:])
+    if any(l.startswith("MISMATCH") for l in ver.read_text().splitlines()):
+        return None, "the one-by-one execution of the long log disagrees with the model (a matter of C01/C09): %s" % ver.read_text()[:300]
+    want = sorted(l for l in out.read_text().splitlines() if l.startswith("D "))
+    have = sorted(l for l in rep.read_text().splitlines() if l.startswith("D "))
+    if want == have and "!NOTOK" not in rep.read_text():
+        return None, None
+
+    def seq_of(lines):
+        for l in lines:
+            fs = l.split(" ")
+            if fs[2] == b"seq".hex():
+                return [bytes.fromhex(x).decode() for x in fs[-1].split(",") if x and x != "-"]
+        return []
+    ws, hs = seq_of(want), seq_of(have)
+    first = next((i for i, (a, b) in enumerate(zip(ws, hs)) if a != b), min(len(ws), len(hs)))
+    cnt = collections.Counter(hs)
+    never = [x for x in ws if cnt[x] == 0]
+    twice = [x for x, c in cnt.items() if c > 1]
+    only_w = sorted(set(want) - set(have))
+    return dict(kind="replay-of-a-long-log-is-not-the-log", replay_long_log=n,
+                applied_order_first_difference=dict(position=first + 1, expected_command="RPUSH seq %s" % (ws[first] if first < len(ws) else "-"),
+                                                    applied_instead="RPUSH seq %s" % (hs[first] if first < len(hs) else "<nothing>")),
+                commands_never_applied=len(never), first_never_applied=["RPUSH seq " + x for x in never[:3]],
+                commands_applied_twice=len(twice), first_applied_twice=["RPUSH seq " + x for x in sorted(twice, key=int)[:3]],
+                keyspace_lines_missing=[l[:120] for l in only_w[:3]],
+                note="log = commands i=1..%d: i%%4==0 SET k<i> v<i>, i%%4==1 INCR ctr, otherwise RPUSH seq <i>; handed to the apply path as one Ready "
+                     "(a restart on this WAL); C08_restart_recovers: the recovered keyspace is the replay of the committed prefix" % n), None
 
 
 # ----------------------------------------------------------------------------- (V)
@@ -321,6 +385,10 @@ def run(ctx):
         if berr:
             print(berr)
             return 1
+        if r.get("replay_long_log"):
+            f, err = long_replay_tie(d, int(r["replay_long_log"]), "replay")
+            print(json.dumps(f or err or "the replay of the long log is the log", indent=1, default=str))
+            return 1 if (f or err) else 0
         if r.get("scenario"):
             rounds = [(tuple(a), b, tuple(c)) for a, b, c in r["scenario"]["rounds"]]
             f, err, st = crash_scenario(ctx, binary, rounds, "replay")
@@ -340,6 +408,27 @@ def run(ctx):
         t = step_order_tie(d)
         if t:
             failing = dict(kind="ready-loop-step-order", **t)
+    lr_sizes = []
+    if not err and not failing:
+        rs = random.Random(ctx.seed * 31 + 5)
+        sizes = [1, 1023, 1024, 1025, 1500, 2600, 5000, rs.randrange(1026, 9000)] if quick else \
+            [1, 2, 1023, 1024, 1025, 1500, 2047, 2048, 2049, 2600, 3072, 3073, 4096, 5000, 7777, 9000, 9990] + [rs.randrange(2, 9990) for _ in range(12)]
+        for n in sizes:
+            f, err = long_replay_tie(d, n)
+            if f:
+                # smallest failing length
+                lo, hi = 1, n
+                while lo < hi:
+                    mid = (lo + hi) // 2
+                    fm, em = long_replay_tie(d, mid, "lrs")
+                    if fm:
+                        hi, f = mid, fm
+                    else:
+                        lo = mid + 1
+                failing = f
+            if failing or err:
+                break
+            lr_sizes.append(n)
     if not err and not failing:
         r = random.Random(ctx.seed * 7 + 8)
         if quick:
@@ -414,7 +503,8 @@ def run(ctx):
             print("KNOWN-FINDING: property=%s %s %s%s" % (PID, kf["id"], kf["text"], (" [this run: %s]" % obs) if obs else ""))
     nacked = sum(v.get("acked", 0) for v in vstats)
     cov.update(dict(
-        evaluations=nacked + sum(m["nsets"] for m in mstats) + len(STEP_PATTERNS),
+        evaluations=nacked + sum(m["nsets"] for m in mstats) + len(STEP_PATTERNS) + sum(lr_sizes),
+        long_replays_single_ready=lr_sizes,
         acknowledged_writes_checked_on_every_node=nacked, crash_scenarios=vstats, snapshot_scenarios=mstats,
         distinct_nontrivial=sum(v.get("rounds_done", 0) for v in vstats) + len([m for m in mstats if m["verdict"] == "as-model"]),
         rule="(V) scenarios are lists of rounds (set of nodes killed with SIGKILL, delay after the writers start, restart order); six concurrent writers "
